@@ -153,7 +153,7 @@ def closed_case(arg):
     rng = random.Random(f"{fam}-{seed}")
     f, a, b, exact, p = make_family(fam, rng)
     tol = 10 ** rng.uniform(-10, -3)
-    mode = rng.choice(["sequential", "shuffled"])
+    mode = rng.choice(["sequential", "shuffled", "shuffled", "children_first", "late_by_generation"])
     res = {"family": fam, "seed": seed, "cap": cap, "mode": mode, "tol": tol, "params": p, "exact": exact,
            "end": "cap", "fail": None, "ratio": None, "npoints": 0}
     learner = il.IntegratorLearner(f, bounds=(a, b), tol=tol)
@@ -165,6 +165,48 @@ def closed_case(arg):
             if mode == "sequential":
                 for x in pts:
                     learner.tell(x, float(f(x)))
+            elif mode == "late_by_generation":
+                # one large request served breadth first over several generations of intervals; everything comes back except a
+                # few values per interval - those only the interval's own rules need - which arrive last, oldest generation first
+                # (many workers, a few slow evaluations)
+                more, _ = learner.ask(rng.choice([90, 150, 243, 300]))
+                pts = list(pts) + list(more)
+                asked = set(pts)
+                ivs = sorted({iv for x in pts for iv in learner.x_mapping.get(x, ())}, key=lambda iv: (iv.rdepth, iv.a))
+                held = []
+                for iv in ivs:
+                    gen = iv.rdepth - ivs[0].rdepth                       # 0 for the first interval, 1 for its halves, ...
+                    d = 3 if (gen == 0 and rng.random() < 0.7) else rng.choice([max(0, gen - 1), max(0, gen - 1), 0, 1, 2])
+                    try:
+                        nodes = [x for x in iv.points(d) if x in asked and (d == 0 or x not in set(iv.points(d - 1)))]
+                    except Exception:  # noqa: BLE001
+                        nodes = []
+                    nodes = [x for x in nodes if x not in held]
+                    if not nodes or rng.random() < 0.15:
+                        continue
+                    held += nodes if (gen == 0 and d == 3) else [nodes[min(1, len(nodes) - 1)] if rng.random() < 0.6 else rng.choice(nodes)]
+                hs = set(held)
+                for x in pts:
+                    if x not in hs:
+                        learner.tell(x, float(f(x)))
+                for x in held:
+                    learner.tell(x, float(f(x)))
+            elif mode == "children_first":
+                # large requests; the values of the deepest intervals arrive first, those that only an ancestor's rule needs
+                # arrive last (a few stay outstanding): children complete before their parents do
+                if rng.random() < 0.5:
+                    more, _ = learner.ask(rng.choice([60, 120, 200]))
+                    pts = list(pts) + list(more)
+                outstanding += list(pts)
+
+                def depth_of(x):
+                    return min((iv.rdepth for iv in learner.x_mapping.get(x, ())), default=0)
+
+                outstanding.sort(key=lambda x: (-depth_of(x), rng.random()))
+                k = max(1, len(outstanding) - rng.choice([0, 0, 1, 3]))
+                for x in outstanding[:k]:
+                    learner.tell(x, float(f(x)))
+                outstanding = outstanding[k:]
             else:
                 outstanding += list(pts)
                 rng.shuffle(outstanding)
@@ -584,8 +626,8 @@ def run(ctx):
                                                "sequential": 0, "shuffled": 0, "max_ratio": 0.0, "violations": 0,
                                                "done_with_removed_intervals": 0, "evaluations": 0})
         s["cases"] += 1
-        s[r["end"]] += 1
-        s[r["mode"]] += 1
+        s[r["end"]] = s.get(r["end"], 0) + 1
+        s[r["mode"]] = s.get(r["mode"], 0) + 1
         s["evaluations"] += r["npoints"]
         if r["ratio"] is not None:
             s["max_ratio"] = max(s["max_ratio"], r["ratio"])
